@@ -153,6 +153,44 @@ pub fn run(ctx: &Ctx) -> (Report, String) {
         rep
     });
     let mut rep = Report::merge_all(reps);
+    // part (d): candidate selection at large macroblock addresses / in very wide pictures
+    if !ctx.miri() {
+        let sizes = [(2064usize, 16usize), (2064, 48), (1024, 272), (1280, 720), (4112, 32), (65535, 16), (65535, 33), (2048, 48), (640, 480), (16, 4112)];
+        let lr = par_shards(sizes.len() * 2, ctx.threads, |k| {
+            let mut r = Report::new();
+            let (w, h) = sizes[k / 2];
+            let flavour = if k % 2 == 1 && w <= 2048 && h <= 1152 && w % 4 == 0 && h % 4 == 0 { Flavour::StdPlus } else { Flavour::Sor((k % 2) as u8) };
+            let mut rng = Rng::new(ctx.seed ^ 0xC12D, k as u64);
+            crate::mon::guarded(&mut r, || J::obj().set("property", "C12").set("kind", "wide").set("k", k), |r| {
+                let mut cfg = crate::mon::ladder::cfg_for(&mut rng, flavour, w, h, 0);
+                let refpic = crate::mon::ladder::large_intra(&mut rng, &cfg);
+                let mut dec = Dec::new(flavour.sorenson(), false);
+                r.evaluations += 1;
+                if dec.decode(&refpic.encode()) != Outcome::Ok {
+                    r.count("skipped:wide-reference");
+                    return;
+                }
+                let refp = dec.planes().unwrap();
+                cfg.tr = cfg.tr.wrapping_add(1);
+                let pic = crate::mon::ladder::dense_inter(&mut rng, &cfg);
+                let bytes = pic.encode();
+                match check_inter(&mut dec, &refp, &pic, &bytes) {
+                    Ok(_) => {
+                        r.count("wide_pictures_checked");
+                        r.add("wide_macroblocks_checked", pic.mbs.len() as u64);
+                        r.distinct.insert(fnv64(&bytes));
+                    }
+                    Err(f) if f.sig == "generator-invalid" => r.inconclusive.push(f.detail),
+                    Err(f) => r.violation(format!("wide/{}", f.sig), format!("{} {}x{} with a vector in every macroblock: {}", flavour.name(), w, h, f.detail), J::obj().set("property", "C12").set("tier", ctx.tier_name()).set("seed", ctx.seed).set("stage", ctx.stage.clone()).set("kind", "wide").set("k", k)),
+                }
+            });
+            r
+        });
+        rep.merge(Report::merge_all(lr));
+        if ctx.is_main() && ctx.scale_pct == 100 {
+            rep.require("wide_pictures_checked", 18);
+        }
+    }
     if ctx.is_main() && ctx.scale_pct == 100 {
         rep.require("pairs_checked", 2 * 64 * 64 * 2);
         rep.require("sums_checked", 1000);
